@@ -482,11 +482,16 @@ def remap_histories(ctx, rng):
         r = ctx.tlc("RemapHist", rh_cfg(mech, 3, 6 if mech.startswith("MechMemoNo") and mech != "MechMemoNoCv" else 1, ["Independent"], shape="calls" if mech in ("MechMemoNoKind", "MechMemoNoDest", "MechMemoNoK") else "recentre_mid"), what="in-model mutant %s: Independent must be refuted" % mech, count=False, workers=4)
         if r.violated != "Independent":
             raise Machinery("TLC did not refute Independent under %s: %s" % (mech, r))
-    hs = gen_remap_histories(ctx, 2, 2 if thorough else 1)
+    hs = gen_remap_histories(ctx, 2, 1)
+    if thorough:
+        h2 = gen_remap_histories(ctx, 2, 2)
+        hs += rng.sample(h2, min(len(h2), 4000))
     # call, construct_face_centers on the source, call: the second search must see the new centres
     hs += gen_remap_histories(ctx, 3, 1 if thorough else 0, shape="recentre_mid")
     if thorough:
-        hs += gen_remap_histories(ctx, 3, 1)
+        h3 = gen_remap_histories(ctx, 3, 1)
+        ctx.note("length3_remap_histories_generated", len(h3))
+        hs += rng.sample(h3, min(len(h3), 5000))  # a seeded sample of them is replayed
     else:
         hs += gen_remap_histories(ctx, 3, 1, simulate="num=1200", seed=ctx.seed + 5)
     seen, uniq = set(), []
@@ -497,21 +502,12 @@ def remap_histories(ctx, rng):
             uniq.append(h)
     items = list(enumerate(uniq))
     res = pmap(replay_remap_history, items)
-    import json
-    import os
-
-    path = os.path.join(ctx.work, "remap_hist.ndjson")
-    with open(path, "w") as fh:
-        for r in res:
-            fh.write(json.dumps({"id": r["id"], "steps": [({"err": s["err"]} if "err" in s else {"same": s["same"], "kept": s["kept"]}) for s in r["steps"]]}) + "\n")
-    jr = ctx.tlc_ok("RemapHist", rh_cfg("MechIntended", 2, 1, ["Judge"], judge=True, shape="any"), what="judge %d replayed remap histories" % len(res), env={"REC_FILE": path}, workers=4, count=False, timeout=1500)
-    os.remove(path)
-    if jr.distinct < len(res):
-        raise Machinery("history judge visited %d states for %d records" % (jr.distinct, len(res)))
+    hrecs = [{"id": r["id"], "steps": [({"err": s["err"]} if "err" in s else {"same": s["same"], "kept": s["kept"]}) for s in r["steps"]]} for r in res]
     failed = {}
-    for v in jr.prints:
-        if isinstance(v, tuple) and len(v) == 3 and v[0] == "V":
-            failed[v[1]] = {(int(x[0]), str(x[1])) for x in v[2]}
+    for jr in X.run_batches(ctx, "RemapHist", rh_cfg("MechIntended", 2, 1, ["Judge"], judge=True, shape="any"), X.chunks_by(hrecs, lambda r: 1), "judge replayed remap histories", False):
+        for v in jr.prints:
+            if isinstance(v, tuple) and len(v) == 3 and v[0] == "V":
+                failed[v[1]] = {(int(x[0]), str(x[1])) for x in v[2]}
     nsteps = 0
     for (hid, hist), r in zip(items, res):
         ctx.traces += 1
